@@ -887,7 +887,7 @@ fn main() {
         samples.push("(no execution completed)".into());
     }
     let ev = format!(
-        "{{\n \"property_id\": \"C16\",\n \"tier\": {},\n \"seed\": {},\n \"level\": \"model_checking\",\n \"coverage\": {{\n  \"states\": {},\n  \"transitions\": {},\n  \"traces_validated_against_impl\": {},\n  \"evaluations\": {},\n  \"distinct_nontrivial\": {},\n  \"rule\": \"one evaluation = one complete schedule of the real code (repository source re-targeted onto shuttle primitives) executed under the bounded-preemption DFS scheduler and compared, thread by thread, with sequential use; states = scheduling points visited, transitions = scheduling decisions; distinct_nontrivial = number of distinct orders (table@thread) in which the racing threads initialised the shared tables, summed over scenarios - more than one per scenario shows that first-use really raced\",\n  \"exhaustive\": {},\n  \"caps_hit\": [{}],\n  \"completed\": [{}],\n  \"per_scenario\": [\n   {}\n  ],\n  \"samples\": [{}]\n }},\n \"assumptions\": [\"scheduling points are the operations of shuttle's sync/thread/lazy primitives onto which every std::sync / std::thread use of the source is re-targeted; unsynchronised accesses have no scheduling point; the port's Arc/Weak and atomic wrappers add one before every reference-count operation and after every atomic write (publication before the guarded data is written)\", \"std::thread::available_parallelism is answered by the harness: 2 (a two-CPU machine), so that budgets derived from it are exhausted by two threads\", \"sequentially consistent atomics (the crate has none of its own); std's LazyLock implementation itself is trusted and modelled by shuttle's blocking Once\", \"2-thread scenarios: all schedules (bound 'all'); 3-thread scenarios: all schedules with at most the stated number of preemptions\"],\n \"wall_s\": {:.1},\n \"violations\": {}\n}}\n",
+        "{{\n \"property_id\": \"C16\",\n \"tier\": {},\n \"seed\": {},\n \"level\": \"model_checking\",\n \"coverage\": {{\n  \"states\": {},\n  \"transitions\": {},\n  \"traces_validated_against_impl\": {},\n  \"evaluations\": {},\n  \"distinct_nontrivial\": {},\n  \"rule\": \"one evaluation = one complete schedule of the real code (repository source re-targeted onto shuttle primitives) executed under the bounded-preemption DFS scheduler and compared, thread by thread, with sequential use; states = scheduling points visited, transitions = scheduling decisions; distinct_nontrivial = number of distinct orders (table@thread) in which the racing threads initialised the shared tables, summed over scenarios - more than one per scenario shows that first-use really raced\",\n  \"exhaustive\": {},\n  \"caps_hit\": [{}],\n  \"completed\": [{}],\n  \"per_scenario\": [\n   {}\n  ],\n  \"samples\": [{}]\n }},\n \"assumptions\": [\"scheduling points are the operations of shuttle's sync/thread/lazy primitives onto which every std::sync / std::thread use of the source is re-targeted; unsynchronised accesses have no scheduling point; the port's Arc/Weak and atomic wrappers add one before every reference-count operation and after every atomic write (publication before the guarded data is written), and - only in source files that declare a static which is not a LazyLock, i.e. hand-synchronised process-wide state; none on the pinned tree - one before every top-level loop of a function body (between the passes of a multi-pass construction)\", \"std::thread::available_parallelism is answered by the harness: 2 (a two-CPU machine), so that budgets derived from it are exhausted by two threads\", \"sequentially consistent atomics (the crate has none of its own); std's LazyLock implementation itself is trusted and modelled by shuttle's blocking Once\", \"2-thread scenarios: all schedules (bound 'all'); 3-thread scenarios: all schedules with at most the stated number of preemptions\"],\n \"wall_s\": {:.1},\n \"violations\": {}\n}}\n",
         jstr(&tier),
         seed,
         total_points.max(1),
